@@ -358,6 +358,61 @@ def own_defaults(rec, rng):
             return
 
 
+def odd_names_and_shared_paths(rec, rng):
+    """Variables named like things the generated builder function uses itself (self, kwargs, q, params, class ...),
+    with and without extra query values; and one endpoint whose rules share a path on two subdomains, one of them
+    pinning the subdomain variable through defaults."""
+    from urllib.parse import unquote, urlsplit
+
+    from werkzeug.exceptions import HTTPException
+    from werkzeug.routing import Map, RequestRedirect, Rule
+
+    names = ["q", "params", "self", "kwargs", "class", "values", "rv", "opl", "_", "url", "path", "host"]
+    for name in names:
+        for shape in (f"/one/<{name}>", f"/two/<path:{name}>", f"/three/<int:{name}>/<other>"):
+            vals = {name: 7 if "<int:" in shape else "v\u00e9 x" if "<path:" not in shape else "a/b c"}
+            if "<other>" in shape:
+                vals["other"] = "o"
+            for extra in ({}, {"sort": "asc", "k": "1"}):
+                case = {"part": "odd-names", "rule": shape, "values": repr(vals), "extra": extra}
+                rec.case()
+                rec.nontrivial(("odd-names", shape, bool(extra)))
+                rec.observe("rules_with_builder_internal_variable_names")
+                ad = Map([Rule(shape, endpoint="e"), Rule("/zzz", endpoint="z")]).bind("h.com", "/")
+                try:
+                    url = ad.build("e", dict(vals, **extra))
+                    u = urlsplit(url)
+                    got = ad.match(unquote(u.path))
+                except HTTPException as e:
+                    rec.violation("C04/built-url-does-not-match", f"{shape}: build({vals!r} + {extra!r}) gave a URL that does not match back: {type(e).__name__}", case, monitor="law1")
+                    break
+                if got != ("e", vals):
+                    rec.violation("C04/build-then-match:values-differ", f"{shape}: built {url!r}, matching its path gives {got!r}, expected {vals!r}", case, monitor="law1")
+                    break
+    # one endpoint, same path, two subdomains
+    rules = [Rule("/all/", subdomain="www", defaults={"lang": "en"}, endpoint="all"), Rule("/all/", subdomain="<string(length=2):lang>", endpoint="all"),
+             Rule("/p/<int:n>", subdomain="www", defaults={"lang": "en"}, endpoint="p"), Rule("/p/<int:n>", subdomain="<string(length=2):lang>", endpoint="p")]
+    for order in (rules, rules[::-1]):
+        m = Map([r.empty() for r in order])
+        for sub, path in (("en", "/all/"), ("de", "/all/"), ("www", "/all/"), ("en", "/p/5"), ("de", "/p/5")):
+            ad = m.bind("example.com", "/", subdomain=sub)
+            case = {"part": "shared-path-two-subdomains", "subdomain": sub, "path": path}
+            rec.case()
+            rec.nontrivial(("shared-path", sub, path, order is rules))
+            rec.observe("endpoints_sharing_a_path_on_two_subdomains")
+            try:
+                ep, vals = ad.match(path)
+            except RequestRedirect:
+                continue  # sent to the canonical URL: nothing matched here
+            except HTTPException as e:
+                rec.violation("C04/built-url-does-not-match", f"{sub}.example.com{path}: {type(e).__name__}", case, monitor="law2")
+                break
+            rebuilt = ad.build(ep, vals, force_external=True)
+            if rebuilt != f"http://{sub}.example.com{path}":
+                rec.violation("C04/match-then-build-differs", f"http://{sub}.example.com{path} matched as {(ep, vals)!r}, which builds {rebuilt!r}", case, monitor="law2")
+                break
+
+
 def run(shard, rec, rng):
     from werkzeug.exceptions import HTTPException
     from werkzeug.routing import EndpointPrefix, Map, RequestRedirect, Rule, Subdomain, Submount
@@ -378,6 +433,7 @@ def run(shard, rec, rng):
     concurrent_first_use(rec, rng, cfg.get("concurrent", 6))
     wide_rules(rec, rng)
     own_defaults(rec, rng)
+    odd_names_and_shared_paths(rec, rng)
     for it in range(cfg["maps"]):
         nr = rng.randint(1, 4)
         mode = rng.choice(["plain", "plain", "subdomain", "host", "submount", "subdomainfactory", "default_subdomain"])
